@@ -3,12 +3,18 @@
 package verifier
 
 import (
+	"context"
 	"crypto/x509"
 	"errors"
+	"time"
 
 	revocationresult "github.com/notaryproject/notation-core-go/revocation/result"
+	"github.com/notaryproject/notation-core-go/signature"
+	"github.com/notaryproject/notation-go"
 	vr "github.com/notaryproject/notation-go/internal/zzvr"
 	"github.com/notaryproject/notation-go/log"
+	"github.com/notaryproject/notation-go/verifier/trustpolicy"
+	ocispec "github.com/opencontainers/image-spec/specs-go/v1"
 )
 
 // VsymC05Final: revocationFinalResult over arbitrary result vectors.
@@ -57,3 +63,91 @@ func VsymC05Final() {
 	vr.Assert(vr.Implies(vr.Not(allOK), final != revocationresult.ResultOK), "not all ok => not OK")
 	vr.Reach("done")
 }
+
+func init() { vsymHarnesses["VsymC05Final"] = VsymC05Final }
+
+// VsymC05Options: what the revocation validator is consulted with - the complete chain of the signature, and
+// the authentic signing time only for signing-authority signatures - through both validator interfaces and
+// under every action of the revocation type.
+func VsymC05Options() {
+	kitEnv = kitEnvState{}
+	kitInstallEnvelope()
+	scheme := []signature.SigningScheme{signature.SigningSchemeX509, signature.SigningSchemeX509SigningAuthority}[vr.Choice("scheme", 2)]
+	n := vr.Choice("chainLength", vr.Param("chain", 3)) + 1
+	var chain []*x509.Certificate
+	for i := 0; i < n; i++ {
+		c := &x509.Certificate{Raw: []byte{'c', byte('0' + i)}}
+		c.Subject.Country, c.Subject.Province, c.Subject.Organization = []string{"US"}, []string{"WA"}, []string{"a"}
+		c.NotBefore, c.NotAfter = time.Unix(946684800, 0), time.Unix(4102444800, 0)
+		chain = append(chain, c)
+	}
+	signingTime := time.Unix(1700000000, 0)
+	kitEnv.content = &signature.EnvelopeContent{
+		Payload: signature.Payload{ContentType: "application/vnd.cncf.notary.payload.v1+json", Content: vr.JSONBytes(vr.JObj("targetArtifact", vr.JObj("mediaType", vr.JStr("m"), "digest", vr.JStr("d"), "size", vr.JNum(1))))},
+		SignerInfo: signature.SignerInfo{SignedAttributes: signature.SignedAttributes{SigningScheme: scheme, SigningTime: signingTime}, SignatureAlgorithm: signature.AlgorithmPS256, CertificateChain: chain, Signature: []byte("sig")},
+	}
+	storeKey := "ca:s"
+	if scheme == signature.SigningSchemeX509SigningAuthority {
+		storeKey = "signingAuthority:s"
+	}
+	store := &kitStore{answers: map[string]kitStoreAnswer{storeKey: {certs: []*x509.Certificate{chain[n-1]}}}}
+	action := []trustpolicy.ValidationAction{trustpolicy.ActionEnforce, trustpolicy.ActionLog, trustpolicy.ActionSkip}[vr.Choice("revocationAction", 3)]
+	level := "strict"
+	ov := map[trustpolicy.ValidationType]trustpolicy.ValidationAction{trustpolicy.TypeRevocation: action}
+	opts := VerifierOptions{OCITrustPolicy: kitOCIDoc(level, ov, []string{storeKey}, []string{"*"}), RevocationTimestampingValidator: &kitValidator{}}
+	val := &kitValidator{results: kitOKResults(n)}
+	cli := &kitClient{kitValidator: kitValidator{results: kitOKResults(n)}}
+	useClient := vr.Choice("validatorInterface", 2) == 1
+	if useClient {
+		opts.RevocationClient = cli
+		val = &cli.kitValidator
+	} else {
+		opts.RevocationCodeSigningValidator = val
+	}
+	// the validator's verdict on one certificate, to see it arrive in the outcome
+	bad := vr.Choice("reportedRevoked", n+1) - 1
+	if bad >= 0 {
+		val.results[bad].Result = revocationresult.ResultRevoked
+	}
+	v, err := NewVerifierWithOptions(store, opts)
+	vr.Assert(err == nil, "harness: verifier")
+	if err != nil {
+		return
+	}
+	outcome, verr := v.Verify(context.Background(), ocispec.Descriptor{MediaType: "m", Digest: "d", Size: 1}, []byte{1}, notation.VerifierVerifyOptions{ArtifactReference: kitRef, SignatureMediaType: kitJWS})
+	if action == trustpolicy.ActionSkip {
+		vr.Assert(val.calls == 0, "revocation skipped by the level: the validator is not consulted")
+		vr.Assert(verr == nil, "nothing else fails")
+		vr.Reach("revocation skipped")
+		return
+	}
+	vr.Assert(val.calls == 1, "the validator is consulted once")
+	same := len(val.chain) == n
+	for i := 0; i < n && i < len(val.chain); i++ {
+		same = same && val.chain[i] == chain[i]
+	}
+	vr.Assert(same, "the validator is consulted with the complete chain of the signature")
+	if scheme == signature.SigningSchemeX509SigningAuthority {
+		vr.Assert(val.time.Equal(signingTime), "signing-authority signature: the validator receives the authentic signing time")
+		vr.Reach("signing authority")
+	} else {
+		vr.Assert(val.time.IsZero(), "notary.x509 signature: the validator receives no signing time")
+		vr.Reach("notary.x509")
+	}
+	wantFail := bad >= 0 && action == trustpolicy.ActionEnforce
+	vr.Assert((verr != nil) == wantFail, "a revoked certificate anywhere in the chain fails an enforced revocation validation, and only that")
+	var rev *notation.ValidationResult
+	for _, r := range outcome.VerificationResults {
+		if r.Type == trustpolicy.TypeRevocation {
+			rev = r
+		}
+	}
+	vr.Assert(rev != nil && (rev.Error != nil) == (bad >= 0), "the revocation result reports the validator's verdict")
+	if useClient {
+		vr.Reach("deprecated client")
+	} else {
+		vr.Reach("context-aware validator")
+	}
+}
+
+func init() { vsymHarnesses["VsymC05Options"] = VsymC05Options }
